@@ -80,7 +80,7 @@ void vcheck_indep(double a, const char* family, const char* tag, int k) { chk("i
 void vcheck_sat(bool c, const char* tag, int k) { chk("witness", c ? 1.0 : 0.0, 1.0, tag, k, true); }
 void vcheck_deriv(double f, double df, const char* var, const char* tag, int k, double fd) { chk("eq", df, fd, tag, k, std::fabs(df - fd) <= 1e-5 * (std::fabs(df) + std::fabs(fd) + 1.0)); }
 double vdiff(double f, const char* var) { return 0.0; }
-void vcheck_eq_fd(double a, double b, const char* tag, int k, double fd) { chk("eq", b, fd, tag, k, std::fabs(b - fd) <= 2e-3 * (std::fabs(b) + std::fabs(fd) + 1.0)); }
+void vcheck_eq_fd(double a, double b, const char* tag, int k, double fd) { chk("eq", b, fd, tag, k, std::fabs(b - fd) <= 2e-5 * (std::fabs(b) + std::fabs(fd)) + 1e-7); }
 void vrace_begin() {}
 void vreach(const char* tag) { printf("REACH %s\n", tag); }
 void vout(double a, const char* tag, int k) { printf("OUT %s %d ", tag, k); hex(a); printf(" %.17g\n", a); }
